@@ -47,9 +47,13 @@ type c11Case struct {
 	Pat   int      `json:"pat"`      // what the inner bytes of strings are made of (0 letters, 1 escaped quotes first, 2 escaped quotes last, 3 UTF-8, 4 backslashes, 5 literals true/false/null where the lengths fit, 6 digit runs with a fraction, 7 with fraction and exponent)
 	Ideal [][3]int `json:"ideal"`    // kind (0 val,1 EOF,2 E,3 ueof,4 syn), start, end in abstract offsets
 	Trace bool     `json:"trace,omitempty"`
+	// which error value stands for the reader's error "E": 0 an error of the harness's own, 1 io.ErrUnexpectedEOF itself,
+	// 2 an error that wraps io.EOF (the Decoder compares errors with its own sentinels: none of them is the reader's)
+	EV int `json:"ev,omitempty"`
 }
 
 var errReader = errors.New("verif: reader failed")
+var c11ErrVariants = []error{errReader, io.ErrUnexpectedEOF, fmt.Errorf("verif: reader failed: %w", io.EOF)}
 
 type schedReader struct {
 	data  []byte
@@ -336,7 +340,13 @@ func c11Run(c *Ctx, k c11Case) (events []string, header string) {
 	data, cum := liftStream(k.S, k.Lens, k.Pat)
 	var term error = io.EOF
 	if k.T == "E" {
-		term = errReader
+		term = c11ErrVariants[k.EV%len(c11ErrVariants)]
+	}
+	errKind := func(err error) string {
+		if k.T == "E" && err != nil && err == term {
+			return "E"
+		}
+		return errKind(err)
 	}
 	fail := func(api, want, got string) { c.Diverge("C11", api, want, got, "", k) }
 
@@ -507,6 +517,9 @@ func c11Vector(c *Ctx, raw stdjson.RawMessage) {
 			pat = forcePat
 		}
 		k := c11Case{S: v.S, T: v.T, Lens: lens, Sched: sched, WithE: withE, Ideal: ideal, Trace: trace && tracing, Pat: pat}
+		if !k.Trace {
+			k.EV = r.intn(len(c11ErrVariants))
+		}
 		c.Case()
 		ev, hdr := c11Run(c, k)
 		if k.Trace && hdr != "" {
